@@ -458,4 +458,158 @@ theorem root_set_history_free (hz : Bool) (src : κ → Option (List ε)) (zero 
   · rintro ⟨k, hk, r⟩; exact ⟨k, (hkeys k).mpr hk, r⟩
 
 
+
+/-! ## composition: what a consumer of the node `cycleK` models holds -/
+
+/-- the step `cycleK` presents to the publication -/
+def stepOf (hz : Bool) (s : KSt κ ε) (i : KIn κ ε) : Step κ ε :=
+  let pl := plan hz s.g.tree i.inp
+  let r := cycleGOf unionL hz s.g i.inp pl
+  let fresh : Nat → Bool := match pl.rb with
+    | some rb => fun q => rb.bankChanged || rb.created.contains q
+    | none => fun _ => false
+  { pv := prevView hz s.g i s.pub.target
+    view := curView hz s.g fresh r.st i
+    ev := pl.rb.map fun rb => { src := rootId hz r.st.tree, bankChanged := rb.bankChanged }
+    evaluated := true }
+
+/-- `cycleK` (the function the model driver runs) IS `cycleG` with set union + one `pubStep` -/
+theorem cycleK_is_pubStep (hz : Bool) (s : KSt κ ε) (i : KIn κ ε) :
+    (cycleK true hz s i).obs = (pubStep ⟨s.pub, s.seen⟩ (stepOf hz s i)).2 ∧
+    (cycleK true hz s i).st.pub = (pubStep ⟨s.pub, s.seen⟩ (stepOf hz s i)).1.pub ∧
+    (cycleK true hz s i).st.seen = (pubStep ⟨s.pub, s.seen⟩ (stepOf hz s i)).1.seen ∧
+    (cycleK true hz s i).st.g = (cycleG unionL hz s.g i.inp).st := ⟨rfl, rfl, rfl, rfl⟩
+
+/-- what the surrounding graph guarantees about the replayed inputs: an element (the zero) that ticks carries the exact
+    difference to its previous value, one that does not tick keeps its value -/
+structure ElemOK (i : KIn κ ε) (src0 : κ → Option (List ε)) (zero0 : Option (List ε)) : Prop where
+  old : ∀ k, i.srcOld k = src0 k
+  added : ∀ k ∈ i.inp.ticked, ∀ x, x ∈ (i.elemDelta k).1 ↔ x ∈ (i.inp.src k).getD [] ∧ x ∉ (src0 k).getD []
+  removed : ∀ k ∈ i.inp.ticked, ∀ x, x ∈ (i.elemDelta k).2 ↔ x ∈ (src0 k).getD [] ∧ x ∉ (i.inp.src k).getD []
+  zadded : i.inp.zeroEvent = true → ∀ x, x ∈ i.zeroDelta.1 ↔ x ∈ i.inp.zero.getD [] ∧ x ∉ zero0.getD []
+  zremoved : i.inp.zeroEvent = true → ∀ x, x ∈ i.zeroDelta.2 ↔ x ∈ zero0.getD [] ∧ x ∉ i.inp.zero.getD []
+
+/-- THE FULL END-TO-END STATEMENT (not proved in full, see `keyed_end_to_end_partial`): from any reachable state of
+    the tree and of the publication, one more evaluation leaves the consumer of the node with exactly the union over
+    the live valid elements. -/
+def KeyedEndToEnd (κ ε : Type) [DecidableEq κ] [DecidableEq ε] : Prop :=
+  ∀ (hz : Bool) (s : KSt κ ε) (i : KIn κ ε) (src0 : κ → Option (List ε)) (zero0 : Option (List ε)) (g : Ghost κ ε),
+    ReachG unionL hz src0 zero0 s.g → InputsOKG unionL hz s.g i.inp src0 zero0 → ElemOK i src0 zero0 →
+    PInv g ⟨s.pub, s.seen⟩ → g.root = rootId hz s.g.tree →
+    g.val = (rootVal hz zero0 src0 s.g.toL).getD [] → g.live = (rootVal hz zero0 src0 s.g.toL).isSome →
+    ¬ (hz = true ∧ (cycleK true hz s i).st.g.tree.keys.length = 1) → 0 < (cycleK true hz s i).st.g.tree.keys.length →
+    ∀ x, x ∈ obsSet (cycleK true hz s i).obs ↔
+      ∃ k ∈ (cycleK true hz s i).st.g.tree.keys, ∃ v, i.inp.src k = some v ∧ x ∈ v
+
+/-- C11-keyed, composition (PARTIAL): the set the consumer of the node holds after an evaluation is the union over the
+    live valid elements — given, beyond the hypotheses of `KeyedEndToEnd`, that the views `cycleK` builds for the old
+    and the current root are coherent (`StepOK`; by construction for combiner and element sources: `combView_coh`,
+    `inputView_coh`) and that the root identity does not move in a cycle without `rebuild_structure`. -/
+theorem keyed_end_to_end_partial (hz : Bool) (s : KSt κ ε) (i : KIn κ ε) (src0 : κ → Option (List ε))
+    (zero0 : Option (List ε)) (g : Ghost κ ε)
+    (hreach : ReachG unionL hz src0 zero0 s.g) (hin : InputsOKG unionL hz s.g i.inp src0 zero0)
+    (hp : PInv g ⟨s.pub, s.seen⟩)
+    (hok : StepOK g (stepOf hz s i))
+    (hstable : (plan hz s.g.tree i.inp).rb = none → rootId hz (cycleK true hz s i).st.g.tree = g.root)
+    (hn : ¬ (hz = true ∧ (cycleK true hz s i).st.g.tree.keys.length = 1))
+    (hpos : 0 < (cycleK true hz s i).st.g.tree.keys.length) (x : ε) :
+    x ∈ obsSet (cycleK true hz s i).obs ↔
+      ∃ k ∈ (cycleK true hz s i).st.g.tree.keys, ∃ v, i.inp.src k = some v ∧ x ∈ v := by
+  have hpub := (pub_step g ⟨s.pub, s.seen⟩ (stepOf hz s i) hp hok).2.1
+  have hobs : (cycleK true hz s i).obs = (pubStep ⟨s.pub, s.seen⟩ (stepOf hz s i)).2 := rfl
+  have hg : (cycleK true hz s i).st.g = (cycleG unionL hz s.g i.inp).st := rfl
+  have hroot : nextRoot g (stepOf hz s i) = rootId hz (cycleG unionL hz s.g i.inp).st.tree := by
+    unfold nextRoot
+    cases hrb : (plan hz s.g.tree i.inp).rb with
+    | none =>
+      have : (stepOf hz s i).ev = none := by simp [stepOf, hrb]
+      rw [this]
+      exact (hstable hrb).symm
+    | some rb =>
+      have : (stepOf hz s i).ev = some { src := rootId hz (cycleG unionL hz s.g i.inp).st.tree, bankChanged := rb.bankChanged } := by
+        simp [stepOf, hrb]; rfl
+      rw [this]
+  have hval : (nextG g (stepOf hz s i)).val = (rootVal hz i.inp.zero i.inp.src (cycleG unionL hz s.g i.inp).st.toL).getD [] := by
+    show (if (srcView (stepOf hz s i).view (nextRoot g (stepOf hz s i))).live
+          then (srcView (stepOf hz s i).view (nextRoot g (stepOf hz s i))).value else []) = _
+    rw [hroot]
+    obtain ⟨h1, h2⟩ := root_view_eq_rootVal hz s.g (cycleG unionL hz s.g i.inp).st
+      (match (plan hz s.g.tree i.inp).rb with
+        | some rb => fun q => rb.bankChanged || rb.created.contains q
+        | none => fun _ => false) i
+    have hv : (stepOf hz s i).view = curView hz s.g (match (plan hz s.g.tree i.inp).rb with
+        | some rb => fun q => rb.bankChanged || rb.created.contains q
+        | none => fun _ => false) (cycleG unionL hz s.g i.inp).st i := rfl
+    rw [hv]
+    by_cases hl : (srcView (curView hz s.g (match (plan hz s.g.tree i.inp).rb with
+        | some rb => fun q => rb.bankChanged || rb.created.contains q
+        | none => fun _ => false) (cycleG unionL hz s.g i.inp).st i) (rootId hz (cycleG unionL hz s.g i.inp).st.tree)).live = true
+    · simp only [hl, if_true]; exact h2 hl
+    · simp only [hl, Bool.false_eq_true, if_false]
+      have : (rootVal hz i.inp.zero i.inp.src (cycleG unionL hz s.g i.inp).st.toL).isSome = false := by
+        rw [← h1]; simpa using hl
+      cases hrv : rootVal hz i.inp.zero i.inp.src (cycleG unionL hz s.g i.inp).st.toL with
+      | none => rfl
+      | some v => rw [hrv] at this; simp at this
+  rw [hobs, hpub x, hval, hg]
+  exact root_set_eq_union hz i.inp.src i.inp.zero _ (.cycle s.g i.inp src0 zero0 hreach hin) hn hpos x
+
+/-! ## non-vacuity: the hypotheses are satisfiable on concrete, non-trivial states -/
+
+namespace Example
+open Witness
+
+/-- a root that stays and ticks with the exact difference is coherent -/
+example : Coh [1, 2] true ({ bound := true, live := true, value := [1, 3], modified := true, added := [3], removed := [2] } : SView Nat) := by
+  constructor <;> simp <;> (intro x; omega)
+
+theorem ok_d1 : StepOK ({} : Ghost Nat Nat) d1 :=
+  ⟨fun _ => rfl, fun h => absurd rfl h, fun _ h => absurd rfl h, fun h => by cases h⟩
+
+/-- the re-shape of `witness_direct_ticks_on_reshape` satisfies `StepOK`: the old root (a combiner) kept its set -/
+theorem ok_d2 : StepOK (nextG ({} : Ghost Nat Nat) d1) d2 := by
+  refine ⟨fun _ => rfl, fun _ => ?_, fun h => by simp [nextRoot, nextG, d1, d2] at h, fun h => by cases h⟩
+  constructor <;> simp [nextG, nextRoot, srcView, d1, d2, SetEq]
+
+theorem reach_d2 : ReachP (nextG (nextG ({} : Ghost Nat Nat) d1) d2) (pubStep (pubStep ({} : PState Nat Nat) d1).1 d2).1 :=
+  .step _ _ d2 (.step _ _ d1 .init ok_d1) ok_d2
+
+/-- `PInv` on a state with the snapshot in place, reached by a history with a re-shape -/
+example : PInv (nextG (nextG ({} : Ghost Nat Nat) d1) d2) (pubStep (pubStep ({} : PState Nat Nat) d1).1 d2).1 :=
+  pinv_reachable _ _ reach_d2
+
+example : (pubStep (pubStep ({} : PState Nat Nat) d1).1 d2).1.pub.active = true ∧
+    (pubStep (pubStep ({} : PState Nat Nat) d1).1 d2).1.seen = [1, 2] := by decide
+
+/-- `E1` is satisfiable: the history of `witness_first_reshape` -/
+example : E1 (nextG ({} : Ghost Nat Nat) w1) (pubStep ({} : PState Nat Nat) w1).1 w2 := by
+  refine ⟨by decide, by simp [nextG, nextRoot, w1], rfl, by simp [nextG, nextRoot, w1, w2], rfl, rfl⟩
+
+/-- three elements `{1,2}`, `{2,3}`, `{5}` arrive in one cycle: the tree of `Model/ReduceInc.lean` with set union -/
+def kin1 : KIn Nat Nat :=
+  { inp := { now := 1, collEvent := true, present := [10, 11, 12], ticked := [10, 11, 12]
+             src := fun k => if k = 10 then some [1, 2] else if k = 11 then some [2, 3] else if k = 12 then some [5] else none }
+    elemDelta := fun k => if k = 10 then ([1, 2], []) else if k = 11 then ([2, 3], []) else if k = 12 then ([5], []) else ([], []) }
+
+theorem okk1 : InputsOKG unionL false ({} : GSt Nat (List Nat)) kin1.inp (fun _ => none) none := by
+  have hk : (cycleG unionL false ({} : GSt Nat (List Nat)) kin1.inp).st.tree.keys = [10, 11, 12] := by decide +kernel
+  refine ⟨?_, fun _ => rfl, ?_, fun _ => ⟨rfl, rfl⟩, fun h => by cases h⟩
+  · rw [hk]
+    intro key hkey hnt
+    exact absurd hkey hnt
+  · rw [hk]; decide
+
+/-- the model run: the published set is the union, the delta is the whole set (first publication) -/
+example : (cycleK true false ({} : KSt Nat Nat) kin1).obs.value = [1, 2, 3, 5] ∧
+    (cycleK true false ({} : KSt Nat Nat) kin1).obs.added = [1, 2, 3, 5] ∧
+    (cycleK true false ({} : KSt Nat Nat) kin1).root = .comb 1 0 := by decide +kernel
+
+/-- the hypotheses of `root_set_eq_union` hold for it -/
+example : ∀ x, x ∈ (rootVal false none kin1.inp.src (cycleG unionL false ({} : GSt Nat (List Nat)) kin1.inp).st.toL).getD [] ↔
+    ∃ k ∈ (cycleG unionL false ({} : GSt Nat (List Nat)) kin1.inp).st.tree.keys, ∃ v, kin1.inp.src k = some v ∧ x ∈ v :=
+  root_set_eq_union false kin1.inp.src none _ (.cycle {} kin1.inp (fun _ => none) none (.init _ _) okk1)
+    (by simp) (by decide +kernel)
+
+end Example
+
 end HgVerif.ReduceKeyed
